@@ -619,7 +619,13 @@ func (x *Exec) loadLoc(s *State, loc string, freshCell bool, t types.Type) Value
 			}
 		}
 	}
-	if st, ok := t.Underlying().(*types.Struct); ok && t != nil {
+	if t == nil {
+		if freshCell || strings.HasPrefix(loc, "A:") {
+			return Top{}
+		}
+		return Sym{Name: "@" + x.intern(loc)}
+	}
+	if st, ok := t.Underlying().(*types.Struct); ok {
 		f := make([]Value, st.NumFields())
 		for i := range f {
 			f[i] = x.loadLoc(s, loc+"·"+st.Field(i).Name(), freshCell, st.Field(i).Type())
